@@ -193,4 +193,10 @@ theorem runMany_sorted (ops : List (Nat × Op)) : ∀ (ds : List Dist),
                       Pos.le_of_lt (Pos.lt_of_lt_of_le hlt ((later e he).1 hei))⟩
                   · exact (later e he).2 hei
 
+/-- a helper call of the shape "direct use, then plain jump" consists of loop operations -/
+theorem helperCalls_jump_loopOps (sizes : List Nat) : ∀ op ∈ helperCalls .jump sizes, op.loopOp = true := by
+  intro op hop
+  simp only [helperCalls, Followup.ops, List.mem_flatMap, List.mem_cons, List.not_mem_nil, or_false] at hop
+  obtain ⟨n, _, h | h⟩ := hop <;> subst h <;> rfl
+
 end StarsimModel.Rng
